@@ -75,13 +75,13 @@ def family_c(ctx, m, name, by, base, point, extra_wit=()):
             ctx.record('C10:%s:one-sided-is-two-sided-bound:%s' % (name, tz), 'M', 'held', bound='syntactic (same DAG modulo the oracle argument)',
                        sample={'obligation': '%s: one-sided bound and two-sided bound are the same function of the critical value' % name})
         else:
-            hy = [abs_c(c) for c in pc0 + pcu + pcl] + base + list(extra_wit)
+            hy = [abs_c(c) for c in nokind(pc0) + nokind(pcu) + nokind(pcl)] + base + list(extra_wit)
             m.submit('C10:%s:one-sided-is-two-sided-bound:%s' % (name, tz), hy, T.and_(T.mk('feq', au, a0[0]), T.mk('feq', al, a0[1])), key='C10:%s:one-sided-vs-two-sided' % name, timeout=120)
         # oracle arguments other than the quantile do not depend on the kind
         apps0 = [a for x in b0 for a in apps_in(x)]
         appsu = [a for a in apps_in(bu[0])]
         if apps0 and appsu and len(apps0[0]) > 3 and apps0[0][3] != appsu[0][3]:
-            m.submit('C10:%s:dof-independent-of-kind:%s' % (name, tz), pc0 + pcu + base, T.mk('feq', apps0[0][3], appsu[0][3]), key='C10:%s:dof' % name, timeout=120)
+            m.submit('C10:%s:dof-independent-of-kind:%s' % (name, tz), nokind(pc0) + nokind(pcu) + base, T.mk('feq', apps0[0][3], appsu[0][3]), key='C10:%s:dof' % name, timeout=120)
         # (b) monotone in the critical value
         hy = [abs_c(c) for c in pc0] + base + list(extra_wit) + [T.mk('fle', C, C2)]
         r2 = lambda x: rename(x, {'C': C2})
@@ -138,14 +138,14 @@ def proportions(ctx, m):
         if lou == lo and hil == hi and hiu == one and lol == zero:
             ctx.record('C10:%s:one-sided-is-two-sided-bound' % tag, 'M', 'held', bound='syntactic', sample={'obligation': '%s: one-sided bounds are the two-sided bound functions of z; far ends 1 and 0' % tag})
         else:
-            m.submit('C10:%s:one-sided-is-two-sided-bound' % tag, pc0 + pcu + pcl + dom, T.and_(T.mk('feq', lou, lo), T.mk('feq', hil, hi), T.mk('feq', hiu, one), T.mk('feq', lol, zero)), key='C10:%s:one-sided-vs-two-sided' % tag, timeout=120)
+            m.submit('C10:%s:one-sided-is-two-sided-bound' % tag, nokind(pc0) + nokind(pcu) + nokind(pcl) + dom, T.and_(T.mk('feq', lou, lo), T.mk('feq', hil, hi), T.mk('feq', hiu, one), T.mk('feq', lol, zero)), key='C10:%s:one-sided-vs-two-sided' % tag, timeout=120)
         # one-sided bounds monotone in z over ALL reals (levels below 1/2 have z < 0): decided on z >= 0 and carried to z <= 0 by the
         # odd symmetry lower(-z) = upper(z) (so "lower end decreasing on z <= 0" is "upper end increasing on z >= 0")
         Z2 = T.var('Z2')
         r2 = lambda x: rename(x, {'Z': Z2})
         neg = lambda x: rename(x, {'Z': T.mk('fneg', Z)})
         zr = [T.mk('fle', zero, Z), T.mk('flt', Z, Z2)] + ([T.mk('fle', Z2, T.fconst(4))] if tag == 'wald' else [])
-        m.submit('C10:%s:odd-symmetry-in-z' % tag, pcu + pcl + dom, T.and_(T.mk('feq', neg(lou), hil), T.mk('feq', neg(hil), lou)), key='C10:%s:odd-symmetry' % tag, timeout=120, note='lower(-z) = upper(z): no absolute value on the span')
+        m.submit('C10:%s:odd-symmetry-in-z' % tag, nokind(pcu) + nokind(pcl) + dom, T.and_(T.mk('feq', neg(lou), hil), T.mk('feq', neg(hil), lou)), key='C10:%s:odd-symmetry' % tag, timeout=120, note='lower(-z) = upper(z): no absolute value on the span')
         m.submit('C10:%s:upper-one-sided-nested-in-level' % tag, pcu + [r2(c) for c in pcu] + dom + zr, T.mk('fle', r2(lou), lou), key='C10:%s:nested:upper' % tag, timeout=240, note='0 <= z < z\' => lower end moves down')
         m.submit('C10:%s:lower-one-sided-nested-in-level' % tag, pcl + [r2(c) for c in pcl] + dom + zr, T.mk('fle', hil, r2(hil)), key='C10:%s:nested:lower' % tag, timeout=240, note='0 <= z < z\' => upper end moves up')
         phat = T.mk('fdiv', k_f, n_f)
